@@ -25,6 +25,42 @@ def parallel_driver(cmds, timeout=3000):
     return outs
 
 
+def stall_job(id_, types, store):
+    evs = []
+    for l in ("l1", "l2"):
+        evs += [{"a": "grow", "l": l, "b": 0, "n": 2}, {"a": "outage", "l": l, "b": 0, "n": 0}, {"a": "grow", "l": l, "b": 0, "n": 3}, {"a": "recover", "l": l, "b": 0, "n": 0}]
+    return {"id": id_, "store": store, "sigma": SIGMAS["tile"], "types": types, "events": evs, "partial": False, "stall": True}
+
+
+def stall_part(work, rep, tier, seed, prop):
+    """A log server that goes SILENT (accepts requests, never answers, keeps the connections open) in front of the assembled service - omniwitness.Main
+    in process and the production binary: every feeder cycle ends (the HTTP client's timeout), so the cycles after the outage run and the served
+    checkpoint catches up. Judged by Trace_Omni; failures are reported for `prop`."""
+    binp = build_prod_binary()
+    jobs = [stall_job("stall-a", ["sumdb", "tiles"], "inmem"), stall_job("stall-b", ["tiles", "sumdb"], "sqlfile")]
+    pjobs = [stall_job("pstall-a", ["sumdb", "tiles"], "sqlfile"), stall_job("pstall-b", ["tiles", "sumdb"], "sqlfile")]
+    cmds, outs = [], []
+    for k, (part, prod) in enumerate([(jobs[:1], False), (jobs[1:], False), (pjobs[:1], True), (pjobs[1:], True)]):
+        ip, op = work.path("stall-%d.jsonl" % k), work.path("stall-%d.ndjson" % k)
+        open(ip, "w").write("\n".join(json.dumps(x) for x in part) + "\n")
+        cmds.append(["omni", "-in", ip, "-out", op, "-dir", work.sub("db"), "-seed", str(seed)] + (["-prod", binp] if prod else []))
+        outs.append(op)
+    res = parallel_driver(cmds)
+    tp = work.path("stall.ndjson")
+    with open(tp, "w") as f:
+        for op in outs:
+            f.write(open(op).read())
+    events = read_ndjson(tp)
+    jc = dict(O_BASE, Durable=True, MaxEvents=8, TraceFile=tp, MaxSize=8)
+    jr = tlc(work, "MC_Trace_Omni", cfg_text(spec="TSpec", constants=jc, action_constraints=["Monitor"], postcondition="Done"), name="judge-stall", workers=1, timeout=1800, heap="8g")
+    if not jr.ok:
+        raise Inconclusive("omni judge (silent log servers) failed: %s\n%s" % (jr.error or jr.violated, jr.out[-3000:]))
+    fails = [["FAIL", prop, "silent log server/" + f["name"], f["i"], f["run"], f["k"], f["sig"]] for f in map(json.loads, jr.prints("FAIL"))]
+    seqfam.settle(rep, prop, fails, events, jc)
+    rep.cov["schedules_with_a_silent_log_server"] = len(jobs) + len(pjobs)
+    rep.cov["evaluations"] += sum(1 for e in events if e["e"] == "omni.obs")
+
+
 def c14(work, tier, seed, replay):
     rep = Report("C14", tier, seed, "model_checking")
     rng = random.Random(seed)
@@ -67,6 +103,10 @@ def c14(work, tier, seed, replay):
         for l in ("l1", "l2"):
             evs += [{"a": "grow", "l": l, "b": 0, "n": 2}, {"a": "outage", "l": l, "b": 0, "n": 0}, {"a": "grow", "l": l, "b": 0, "n": 3}, {"a": "recover", "l": l, "b": 0, "n": 0}]
         chains.append({"id": "outage%d" % j, "store": "inmem", "sigma": SIGMAS["tile"], "types": types, "events": evs, "partial": partial})
+    # SILENT outages: the log server accepts every request and then says nothing (the connection stays open for the rest of the run); only the
+    # HTTP client's own timeout ends such a request, and the cycles after the outage must run
+    for j, types in enumerate((["sumdb", "tiles"], ["tiles", "sumdb"])):
+        chains.append(stall_job("stall%d" % j, types, "inmem"))
     # a log whose first published checkpoint has size 0 (the known finding F1 is expected here)
     jobs.append({"id": "ozero", "store": "inmem", "sigma": SIGMAS["tile"], "types": ["sumdb", "tiles"], "start": 0,
                  "events": [{"a": "grow", "l": "l1", "b": 0, "n": 2}]})
@@ -106,6 +146,7 @@ def c14(work, tier, seed, replay):
     for j, (types, sg) in enumerate(((["sumdb", "tiles"], "tile"), (["tiles", "sumdb"], "id"))):
         prod_jobs.append({"id": "pproxy%d" % j, "store": "sqlfile", "sigma": SIGMAS[sg], "types": types, "partial": False, "proxy": True,
                           "events": [{"a": "grow", "l": "l1", "b": 0, "n": 2}, {"a": "grow", "l": "l2", "b": 0, "n": 2}, {"a": "restart", "l": "", "b": 0, "n": 0}, {"a": "grow", "l": "l1", "b": 0, "n": 3}]})
+    prod_jobs.append(stall_job("pstall0", ["sumdb", "tiles"], "sqlfile"))
     rep.cov["production_binary_schedules_behind_an_egress_proxy"] = sum(1 for j_ in prod_jobs if j_.get("proxy"))
     pshards = 6 if tier == "quick" else 8
     for k in range(pshards):
@@ -395,6 +436,8 @@ def c19(work, tier, seed, replay):
         os.remove(cp)
     seqfam.settle(rep, "C19", fails, events, {})
     keytypes_part(work, rep, seed, "C19")
+    # a log server that goes silent in front of the assembled service (Main in process and the production binary): every cycle ends, later cycles run
+    stall_part(work, rep, tier, seed, "C19")
     # the endpoint inside the production binary (Prometheus factory, verbosity 2): origins nobody configured, of many shapes, and malformed bodies
     cb.endpoint_e2e_part(work, rep, tier, seed, "C19", ["unknown-origin", "nosize", "oversize"], prod=True)
     # (3) the add-checkpoint endpoint: one valid request per verdict class and body class (TLC-emitted transitions of MC_Bastion) plus byte-level mutations
